@@ -2,11 +2,11 @@ CONSTANTS
 NAddr = 3
 Fam <- Fam3
 MaxSc = 4
-Mutant = 0
+Mutant = 3
 Quirk = 0
-MaxEvents = 7
-Lists <- ListsB
-HealthVals = {TRUE}
+MaxEvents = 6
+Lists <- ListsA
+HealthVals = {FALSE}
 BalVals = {0}
 INIT Init
 NEXT Next
